@@ -220,7 +220,7 @@ def record_validate(ctx):
                "VERIF_SAMPLE_NS": "[4]", "VERIF_SAMPLES": 400, "VERIF_SAMPLE_MAXZ": 3}
     else:
         env = {"VERIF_NS": "[1,2,3]", "VERIF_FLAGS": "all", "VERIF_ROUNDS": 2, "VERIF_MAXZ": 3,
-               "VERIF_DFS4": 1, "VERIF_SAMPLE_NS": "[4,5,6]", "VERIF_SAMPLES": 6000, "VERIF_SAMPLE_MAXZ": 4}
+               "VERIF_DFS4": 1, "VERIF_SAMPLE_NS": "[4,5,6]", "VERIF_SAMPLES": 600, "VERIF_SAMPLE_MAXZ": 4}
     tp = ctx.path("traces.ndjson")
     env["VERIF_TRACE_OUT"] = tp
     if os.environ.get("C11_SELFTEST") == "corrupt_trace":
